@@ -14,7 +14,7 @@ import (
 func init() {
 	register(&Property{
 		ID:          "C17",
-		Explanation: "R1 (slot units / one grid): the expression reduced modulo len(values) in the slot->bucket mapping is rebuilt from SSA and its physical dimension inferred (Duration/Time = ns, Unix() = s); it must be dimensionless 'slots' of the form quantised-time / resolution, so that N consecutive slots map to N distinct buckets for every resolution; and the staleness comparison of the clean-up must quantise both the check point and lastUpdated on the same grid (Time.Truncate(resolution) or division by resolution) with a strict 'later slot' comparison, zeroing the bucket the mapping assigns to that check point. R2 (clean before use): in every exported method of the counter, every path to a read or write of a bucket element (followed through module callees) first passes the clean-up routine (methods that only store zeros are exempt). R3: every floating-point ratio over counters (RatioCounter.Ratio, RTMetrics.NetworkErrorRatio / ResponseCodeRatio) divides only on the edge where its denominator expression was tested non-zero and returns 0 on the other edge. R4 (bookkeeping shape): the clean-up visits exactly the check points now - i x resolution for i = 0 .. len(buckets)-1 (loop counter from 0, step 1, bound len(buckets)); Count is a full-range sum of the buckets; an increment adds its argument to the bucket of `now` and sets lastUpdated to that same instant. R5 (= C09.R5 for RollingCounter.Clone): a clone owns its bucket slice. R1 also: the constructor stores the resolution parameter unchanged. R2 also: every return of the clean-up routine has passed the test of its sweep loop (no shortcut around the sweep).",
+		Explanation: "R1 (slot units / one grid): the expression reduced modulo len(values) in the slot->bucket mapping is rebuilt from SSA and its physical dimension inferred (Duration/Time = ns, Unix() = s); it must be dimensionless 'slots' of the form quantised-time / resolution, so that N consecutive slots map to N distinct buckets for every resolution; and the staleness comparison of the clean-up must quantise both the check point and lastUpdated on the same grid (Time.Truncate(resolution) or division by resolution) with a strict 'later slot' comparison, zeroing the bucket the mapping assigns to that check point. R2 (clean before use): in every exported method of the counter, every path to a read or write of a bucket element (followed through module callees) first passes the clean-up routine (methods that only store zeros are exempt). R3: every floating-point ratio over counters (RatioCounter.Ratio, RTMetrics.NetworkErrorRatio / ResponseCodeRatio) divides only on the edge where its denominator expression was tested non-zero and returns 0 on the other edge. R4 (bookkeeping shape): the clean-up visits exactly the check points now - i x resolution for i = 0 .. len(buckets)-1 (loop counter from 0, step 1, bound len(buckets)); Count is a full-range sum of the buckets; an increment adds its argument to the bucket of `now` and sets lastUpdated to that same instant. R5 (= C09.R5 for RollingCounter.Clone): a clone owns its bucket slice. R1 also: the constructor stores the resolution parameter unchanged. R2 also: every return of the clean-up routine has passed the test of its sweep loop (no shortcut around the sweep). R2 also: every bucket write zeroes the bucket or adds a parameter of the writing routine to it. R6 (= C09.R1 for RTMetrics).",
 		NotDecided: []string{
 			"the two-sided window inequality (sum over last (N-1)r <= Count <= sum over last N r) for every history: arithmetic over unbounded histories, no sound static argument in reach",
 			"loop bounds of the clean-up (how many check points are visited)",
@@ -496,6 +496,7 @@ func mutantsC17() []Mutant {
 		{Name: "clone-appends-onto-live-buckets", File: "memmetrics/counter.go", Old: "\t\tvalues:      make([]int, len(c.values)),\n", New: "\t\tvalues:      append(c.values[:0], c.values...),\n", More: []Edit{{"memmetrics/counter.go", "\tcopy(other.values, c.values)\n", ""}}, Expect: "C17.R5"},
 		{Name: "cleanup-shortcut", File: "memmetrics/counter.go", Old: "func (c *RollingCounter) cleanup() {\n", New: "func (c *RollingCounter) cleanup() {\n\tif c.countedBuckets == 0 {\n\t\treturn\n\t}\n", Expect: "C17.R2"},
 		{Name: "constructor-truncates-resolution", File: "memmetrics/counter.go", Old: "\t\tresolution: resolution,\n", New: "\t\tresolution: resolution.Truncate(clock.Second),\n", Expect: "C17.R1"},
+		{Name: "append-copies-buckets", File: "memmetrics/counter.go", Old: "\tc.Inc(int(o.Count()))\n\treturn nil\n", New: "\tif len(o.values) == len(c.values) {\n\t\tfor i := range c.values {\n\t\t\tc.values[i] += o.values[i]\n\t\t}\n\t\treturn nil\n\t}\n\tc.Inc(int(o.Count()))\n\treturn nil\n", Expect: "C17.R2"},
 	}
 }
 
